@@ -22,7 +22,17 @@ RULE = ("stream G: seeded random derivations of the dialect grammar of DESIGN.md
         "whitespace runs of length n at every place the grammar allows ws or hws; key, type, field and string names of n characters; "
         "n escaped delimiters; n quote characters inside braces; free text of n lines - each followed by further fields and blocks "
         "(the scanner must be in step again, start lines must count every line), parsed directly and from a caller that is already "
-        "300 or 600 frames deep (interpreter recursion limit 1000); implementation = model (op 132) = ground truth")
+        "300 or 600 frames deep (interpreter recursion limit 1000); implementation = model (op 132) = ground truth. "
+        "stream K / K-ast (props/c02_keychars.py): the character classes of props/charclasses.py in keys and names, with constructive "
+        "ground truth and the derivation as an AST of the Coq grammar (three-way comparison and op 133 exactly as stream G / G-ast): "
+        "for EVERY character of INVISIBLE_NOT_SPACE (not whitespace: part of the key), CASE_ODDITIES, LETTER_LIKE, COMBINING, "
+        "DIGIT_ODDITIES and KEY_PUNCT and every position (start, end, middle, the whole word) a document whose entry keys (entry with "
+        "fields and @t{k}), field names, bare macro piece, @string name and - for word characters - entry type carry it; entry types "
+        "whose str.lower() is not the ASCII one in documents of their own (oracle only, skipped by the model comparison as all such "
+        "documents are); sibling keys / field names / @string names that differ only by such a character, by its case mappings or "
+        "by its Unicode normal forms in ONE document (distinct keys: no duplicate, no failed block); every whitespace character "
+        "(ASCII blanks and OTHER_ISSPACE) in every ws slot around keys, names, '=', values, '#' and between blocks, also next to "
+        "keys with an invisible character at the edge; random mixtures of all of these")
 TRUSTED = ["the ground truth is produced by the generator (harness/gens_split.py) from the derivation, not by parsing"]
 ASSUMPTIONS = ["documents outside the dialect (boundaries B1-B5 of DESIGN.md section 3) are not claimed by this property"]
 
@@ -46,6 +56,13 @@ def generate(rng, tier):
         cases.append({"stream": "Q", "input": q})
     for name, stack, text, items in gen_scaled(rng, tier):
         cases.append({"stream": "S", "input": {"text": text, "items": items, "name": name, "stack": stack}})
+    # stream K (appended last: the streams above keep their inputs): character classes in keys and names
+    from props import c02_keychars as KC
+    for fam, tags, text, items, ast in KC.generate(rng, tier):
+        if not SC.doc_is_nodup(items):
+            continue
+        cases.append({"stream": "K", "input": {"text": text, "items": items, "tags": tags}})
+        cases.append({"stream": "K-ast", "input": {"text": text, "items": items, "ast": ast, "tags": ["ast:" + t for t in tags[:1]]}})
     return cases
 
 
@@ -62,7 +79,7 @@ def impl(case):
         # split_raw level: a duplicate-free document has no duplicate wrappers, so library blocks = raw blocks
         out = [enc.enc_str(text), [enc.enc_block(b) for b in r[1].blocks], 1]
         rec = {"sx_in": [133, case["input"]["ast"]], "sx_out": implutil.r_ok(out), "key": "ast:" + (text if len(text) < 300 else str(hash(text))),
-               "nontrivial": len(items) >= 2, "tags": ["ast"], "summary": SC.summary(r)}
+               "nontrivial": len(items) >= 2, "tags": ["ast"] + list(case["input"].get("tags", [])), "summary": SC.summary(r)}
         if not SC.lower_ok(text):
             rec["skip"] = True
         return rec
@@ -96,6 +113,8 @@ def impl(case):
     if name:
         rec["tags"] = ["scaled:" + name.split("/")[0]]
         rec["nontrivial"] = True
+    if case["input"].get("tags"):
+        rec["tags"] = list(case["input"]["tags"])          # stream K: family, pool and position of the document
     return rec
 
 
